@@ -15,6 +15,9 @@ exec(open(f"{ROOT}/tools/claims.py").read())
 for _pid, _txt in globals().get("ROUND3", {}).items():
     if _pid in CLAIMS:
         CLAIMS[_pid]["text"] += " " + _txt
+for _pid, _txt in globals().get("ROUND5", {}).items():
+    if _pid in CLAIMS:
+        CLAIMS[_pid]["text"] += " " + _txt
 for _pid, _txt in globals().get("ROUND4", {}).items():
     if _pid in CLAIMS:
         CLAIMS[_pid]["text"] += " " + _txt
